@@ -219,7 +219,10 @@ func countItems[T any](source []T, filter *mapper.Filter, limit *mapper.Limit) (
 
 	if limit != nil {
 		items = enumerable.Skip(items, limit.Offset)
-		items = enumerable.Take(items, limit.Limit)
+		// a limit of zero means no limit (offset only)
+		if limit.Limit > 0 {
+			items = enumerable.Take(items, limit.Limit)
+		}
 	}
 
 	count := 0
